@@ -57,6 +57,10 @@ def initial_cases(tier, seed):
     cases.append({"kind": "tsan", "team": 4, "tier": tier, "seed": seed})
     for nt in ([2, 3, 16] if quick else [2, 3, 4, 7, 8, 16]):
         cases.append({"kind": "libgomp", "threads": [1, nt], "reps": 3, "tier": tier, "seed": seed})
+    # the runtime may grant a smaller team than omp_get_max_threads() announces (thread limit, dynamic adjustment): code that
+    # sizes or partitions by the announced number instead of the team it runs in is only exposed when the two differ
+    for nt, lim in ([(4, 3)] if quick else [(4, 3), (8, 5), (16, 7), (3, 2)]):
+        cases.append({"kind": "libgomp", "threads": [1, nt], "limit": lim, "reps": 2, "tier": tier, "seed": seed})
     if not quick:
         cases.append({"kind": "tsan", "team": 2, "tier": tier, "seed": seed})
         cases.append({"kind": "tsan", "team": 8, "tier": tier, "seed": seed})
@@ -229,7 +233,10 @@ def run_libgomp(case):
     res = {}
     evals = 0
     for nt in case["threads"]:
-        r = _sub(["libgomp", case["tier"], str(case["seed"]), str(case["reps"])], {"OMP_NUM_THREADS": str(nt)})
+        env = {"OMP_NUM_THREADS": str(nt)}
+        if case.get("limit") and nt > 1:
+            env.update({"OMP_THREAD_LIMIT": str(case["limit"]), "OMP_DYNAMIC": "false"})
+        r = _sub(["libgomp", case["tier"], str(case["seed"]), str(case["reps"])], env)
         if r.returncode != 0:
             fails.append({"key": "libgomp-run-failed;threads=%d" % nt, "msg": "sub-process failed: %s" % r.stderr[-400:]})
             continue
@@ -247,8 +254,9 @@ def run_libgomp(case):
                     rel = float(np.abs(a - c).max() / (np.abs(a).max() + 1e-300)) if a.shape == c.shape else float("inf")
                     worst = max(worst, rel)
                     if not rel <= 1e-11:
-                        fails.append({"key": "libgomp-thread-dependent;%s" % name,
-                                      "msg": "output of %s at OMP_NUM_THREADS=%d (repetition %d) differs from the single-thread run: rel %.3e" % (name, nt, k, rel)})
+                        fails.append({"key": "libgomp-thread-dependent;%s%s" % (name, ";team<max" if case.get("limit") else ""),
+                                      "msg": "output of %s at OMP_NUM_THREADS=%d%s (repetition %d) differs from the single-thread run: rel %.3e" % (
+                                          name, nt, " with OMP_THREAD_LIMIT=%d" % case["limit"] if case.get("limit") else "", k, rel)})
     return {"fail": fails[:10], "evals": evals, "edges": evals, "outcome": ["libgomp", float("%.3e" % worst)], "info": {"worst_rel": worst}}
 
 
